@@ -305,6 +305,11 @@ def l2_case(args):
     for lengths in (itertools.permutations(range(n)) if not same_chr else [(0, 1)]):
         for mode in ("default", "high_memory"):
             w, names = l2_world(assign, lengths) if not same_chr else l2_world_same_chr(assign)
+            if "_mq0_" in tag:
+                # what aligners write for a read with equally good placements: MAPQ 0 on every record, the primary one included
+                for r in w["reads"]:
+                    if r["name"] == "mm":
+                        r["mapq"] = 0
             d = os.path.join(scratch, "c08_%s_%s_%s" % (tag, "".join(map(str, lengths)), mode))
             shutil.rmtree(d, ignore_errors=True)
             paths = syn.materialise(w, d)
@@ -424,6 +429,10 @@ def run(ctx):
                                                                    ("intergenic", "fsm"), ("fsm", "intergenic"))):
                     continue
                 jobs.append(((a, b, c), ctx.scratch, "same3_%s%s_%s%s_%s%s" % (a + b + c)))
+                prim = [x for x in (a, b, c) if x[1] == "p"][0]
+                if prim[0] == "fsm":
+                    # the same with MAPQ 0 on all records of the read (a consistent alignment is not subject to the MAPQ filters)
+                    jobs.append(((a, b, c), ctx.scratch, "same3_mq0_%s%s_%s%s_%s%s" % (a + b + c)))
     if not quick:
         for a, b, c in itertools.combinations_with_replacement([("fsm", "p"), ("fsm", "s"), ("ism_amb", "s"), ("incons", "s"), ("intergenic", "s")], 3):
             jobs.append(((a, b, c), ctx.scratch, "%s%s_%s%s_%s%s" % (a + b + c)))
